@@ -12,6 +12,23 @@ COMMON_NOTE = ("Trusted: Lean 4.33 kernel; axioms ⊆ {propext, Classical.choice
 
 # id -> (technique, level text, level note extra, design_ref)
 CHECKS = {
+    "C09": ("Lean 4 proof of the delay law's algebra over ℚ (round-half-even odd/monotone/nearest) and of the index form of "
+            "every block dedispersion path (np.roll as List.rotate) + differential correspondence incl. exact-rational "
+            "delay law vs float32 delays + x[c,t+delay_c] oracle on unique-valued data",
+            "Theorems delay_zero_at_ref, delay_antisymm, delay_mono_freq, delay_is_rounded_law; rollRow_get (circular "
+            "index form), rollRow_inverse / blockDedisperse_inverse (DM then −DM = id), blockDedisperseValid_get, "
+            "dmtTransform_row, readDedispBlock_get/_rejects, valid_eq_roll_prefix, pulse_restored; the streamed path is "
+            "C06's dedisperse_eq.",
+            "The float32 evaluation of the law is validated (accepted iff equal to the exact rounding or within the "
+            "float32 error bound of a .5 boundary), not proved; valid-samples and streamed paths index from the "
+            "earliest needed sample (offset max(0,−min delay)).", "§5 C09"),
+    "C11": ("Lean 4 proof that the fold accumulations over the C01 block plan are exactly one per (sample, channel) for "
+            "every gulp + differential correspondence of cube/counts + independent per-sample assignment oracle",
+            "Theorems foldWrites_eq, fold_gulp_independent, fold_partition (counts sum to samples×channels; each cell is "
+            "the sum of exactly the samples the tables assign to it), cell_lt, applyAdd_cell, periodic_single_bin over ℚ.",
+            "Phase-bin / sub-integration / sub-band assignments enter as tables computed by the harness with the "
+            "kernel's own IEEE operations (the float phase formula is validated, not proved); whole-file folds.",
+            "§5 C11"),
     "C07": ("Lean 4 proof that each streaming transform (per-block kernel over the C01 block plan, appended by cwrite) "
             "equals the whole-array transform for every gulp + differential correspondence on the raw output bytes + "
             "NumPy whole-array oracle",
